@@ -14,10 +14,16 @@ const Sentinel = "zQsentinel9"
 // pos is one JavaScript position. Frags lists, in document order, the kind of
 // every dynamic fragment (bare = JSON text as an expression, sq/dq/bt = inside
 // a '…' / "…" / `…` literal, json = body of the JSON script element, fn = the
-// function name of JSFuncCall). Want is, per dynamic unit (script element or
-// on*/hx-on attribute containing a fragment), the calls the sink functions must
-// have recorded: a JSON template where $V is the value's JSON encoding and $L
-// the JSON string of the literal's expected content.
+// function name of JSFuncCall, jsonattr = a data-j attribute fed
+// templ.JSONString(v)). Want is, per dynamic unit (script element, on*/hx-on
+// or data-j attribute containing a fragment), the calls the sink functions must
+// have recorded: a JSON template where $V is the value's JSON encoding, $L the
+// JSON string of the literal's expected content and $S that string's content
+// without the quotes (to splice it between static literal text).
+//
+// jsonstring_attr is deliberately FIRST: the driver renders the positions in
+// this order inside one process, so every other position is rendered after a
+// templ.JSONString call (state carried between API calls would show).
 type pos struct {
 	Name  string
 	Body  string
@@ -26,6 +32,7 @@ type pos struct {
 }
 
 var positions = []pos{
+	{"jsonstring_attr", `<div id="a" data-j={ templ.JSONString(v) }>x</div>`, []string{"jsonattr"}, []string{`[[$V]]`}},
 	{"bare", `<script>sink({{ v }});</script><p>after</p>`, []string{"bare"}, []string{`[[$V]]`}},
 	{"sq", `<script>sink('{{ v }}');</script><p>after</p>`, []string{"sq"}, []string{`[[$L]]`}},
 	{"dq", `<script>sink("{{ v }}");</script><p>after</p>`, []string{"dq"}, []string{`[[$L]]`}},
@@ -43,6 +50,29 @@ var positions = []pos{
 	{"funccall_dotted_hxon", `<div hx-on:click={ templ.JSFuncCall("ns.sink", 7, v) }>x</div>`, []string{"bare"}, []string{`[[7,$V]]`}},
 	{"funccall_cond_attr", "<input type=\"text\"\n\t\tif v != nil || true {\n\t\t\tonchange={ templ.JSFuncCall(\"sink\", v) }\n\t\t}\n\t/><p>after</p>", []string{"bare"}, []string{`[[$V]]`}},
 	{"jsonscript", "@templ.JSONScript(\"id\", v)\n<p>after</p>", []string{"json"}, []string{`[[$V]]`}},
+	// --- static JavaScript around the expression stresses the parser's quote-state tracking
+	{"qs_sq_escaped", `<script>sink('it\'s {{ v }}', 'a\'{{ v }}\'b');</script><p>after</p>`, []string{"sq", "sq"}, []string{`[["it's $S","a'$S'b"]]`}},
+	{"qs_dq_escaped", `<script>sink("say \"{{ v }}\" now", "\"{{ v }}");</script><p>after</p>`, []string{"dq", "dq"}, []string{`[["say \"$S\" now","\"$S"]]`}},
+	{"qs_bt_escaped", "<script>\n\t\tconst hint = `Run \\`{{ v }}\\` to continue`;\n\t\tsink(hint);\n\t</script><p>after</p>", []string{"bt"}, []string{"[[\"Run `$S` to continue\"]]"}},
+	{"qs_bt_escaped_odd", "<script>sink(`\\`{{ v }}`, `a\\`b\\`c\\`{{ v }}`);</script><p>after</p>", []string{"bt", "bt"}, []string{"[[\"`$S\",\"a`b`c`$S\"]]"}},
+	{"qs_escaped_backslash", "<script>sink('a\\\\' + '{{ v }}', \"b\\\\\" + \"{{ v }}\", `c\\\\` + `{{ v }}`);</script><p>after</p>", []string{"sq", "dq", "bt"}, []string{`[["a\\$S","b\\$S","c\\$S"]]`}},
+	{"qs_other_kinds_inside", "<script>sink(\"it's `x` {{ v }}\", 'say \"hi\" `y` {{ v }}', `it's \"z\" {{ v }}`);</script><p>after</p>", []string{"dq", "sq", "bt"}, []string{"[[\"it's `x` $S\",\"say \\\"hi\\\" `y` $S\",\"it's \\\"z\\\" $S\"]]"}},
+	{"qs_comments", "<script>\n\t\tvar a = 1; // don't \"do\" `this`\n\t\t/* it's \"x\" ` */ sink('{{ v }}', {{ v }}, /* ' */ \"{{ v }}\", `{{ v }}`); // it's \"done\"\n\t</script><p>after</p>", []string{"sq", "bare", "dq", "bt"}, []string{`[[$L,$V,$L,$L]]`}},
+	{"qs_bt_holes", "<script>sink(`a${1+1}b {{ v }}`, `x${`in${2}ner`}y {{ v }}`, `${\"q\"}{{ v }}${'r'}`);</script><p>after</p>", []string{"bt", "bt", "bt"}, []string{`[["a2b $S","xin2nery $S","q$Sr"]]`}},
+	{"qs_bare_after_literals", "<script>sink('a\\\\', {{ v }}, \"b\\\\\", {{ v }}, `c\\`d\\`e`, {{ v }}, `e\\\\`, {{ v }}, 'f\\'', {{ v }});</script><p>after</p>", []string{"bare", "bare", "bare", "bare", "bare"}, []string{"[[\"a\\\\\",$V,\"b\\\\\",$V,\"c`d`e\",$V,\"e\\\\\",$V,\"f'\",$V]]"}},
+	{"qs_bare_after_bt_escaped", "<script>sink(`c\\`d`, {{ v }});</script><p>after</p>", []string{"bare"}, []string{"[[\"c`d\",$V]]"}},
+	// --- several APIs in one render (state carried between calls); data-j holds templ.JSONString(v)
+	{"js_then_funccall", "<div data-j={ templ.JSONString(v) }></div>\n@templ.JSFuncCall(\"sink\", v)", []string{"jsonattr", "bare"}, []string{`[[$V]]`, `[[$V]]`}},
+	{"js_then_funccall_attr", `<div data-j={ templ.JSONString(v) }></div><button onclick={ templ.JSFuncCall("sink", v) }>x</button>`, []string{"jsonattr", "bare"}, []string{`[[$V]]`, `[[$V]]`}},
+	{"js_then_script_component", "<div data-j={ templ.JSONString(v) }></div>\n@c03scr(v)", []string{"jsonattr", "bare"}, []string{`[[$V]]`, `[[$V]]`}},
+	{"js_then_script_attr", `<div data-j={ templ.JSONString(v) }></div><button onclick={ c03scr(v) }>x</button>`, []string{"jsonattr", "bare"}, []string{`[[$V]]`, `[[$V]]`}},
+	{"js_then_jsonscript", "<div data-j={ templ.JSONString(v) }></div>\n@templ.JSONScript(\"id\", v)", []string{"jsonattr", "json"}, []string{`[[$V]]`, `[[$V]]`}},
+	{"js_then_bare", `<div data-j={ templ.JSONString(v) }></div><script>sink({{ v }}, "{{ v }}")</script>`, []string{"jsonattr", "bare", "dq"}, []string{`[[$V]]`, `[[$V,$L]]`}},
+	{"funccall_then_js", "@templ.JSFuncCall(\"sink\", v)\n<div data-j={ templ.JSONString(v) }></div>", []string{"bare", "jsonattr"}, []string{`[[$V]]`, `[[$V]]`}},
+	{"script_component_then_js", "@c03scr(v)\n<div data-j={ templ.JSONString(v) }></div>", []string{"bare", "jsonattr"}, []string{`[[$V]]`, `[[$V]]`}},
+	{"jsonscript_then_js", "@templ.JSONScript(\"id\", v)\n<div data-j={ templ.JSONString(v) }></div>", []string{"json", "jsonattr"}, []string{`[[$V]]`, `[[$V]]`}},
+	{"bare_then_js", `<script>sink({{ v }})</script><div data-j={ templ.JSONString(v) }></div>`, []string{"bare", "jsonattr"}, []string{`[[$V]]`, `[[$V]]`}},
+	{"js_sandwich", "@templ.JSFuncCall(\"sink\", 1, v)\n<div data-j={ templ.JSONString(v) }></div>\n@templ.JSFuncCall(\"sink\", 2, v)\n<div data-j={ templ.JSONString(v) }></div>\n@c03scr(v)", []string{"bare", "jsonattr", "bare", "jsonattr", "bare"}, []string{`[[1,$V]]`, `[[$V]]`, `[[2,$V]]`, `[[$V]]`, `[[$V]]`}},
 	// function name of JSFuncCall (strings only; lexical oracle, see fnNameFault)
 	{"funccall_name_component", "@templ.JSFuncCall(fnName(v), 1)\n<p>after</p>", []string{"fn"}, nil},
 	{"funccall_name_attr", `<button onclick={ templ.JSFuncCall(fnName(v), 1) }>x</button>`, []string{"fn"}, nil},
@@ -75,6 +105,7 @@ import (
 	"context"
 	"encoding/base64"
 	"encoding/json"
+	"io"
 	"os"
 
 	"github.com/a-h/templ"
@@ -120,6 +151,12 @@ func main() {
 				panic(e)
 			}
 			o := out{I: j.I}
+			// a single-position job (shrinking, replay) is preceded by the first
+			// position (templ.JSONString) like in a full job, so that a failure
+			// that needs the earlier API call reproduces
+			if j.K != "" && j.K != registry[0].name && registry[0].f != nil {
+				_ = registry[0].f(j.V.Go()).Render(context.Background(), io.Discard)
+			}
 			for _, r := range registry {
 				if j.K != "" && j.K != r.name {
 					o.O, o.E = append(o.O, ""), append(o.E, "")
